@@ -124,7 +124,7 @@ NAN = float("nan")
 def punch_missing(rng, c, domain="json"):
     """Missing values (the part of the data domain that the default generator never reaches).
     point: NaN cells in extra numeric columns (a quantity not recorded at every point), None cells in text columns, a flag column of
-    bools with gaps, an all-missing column, NaN in pressure / loading (never ALL pressures: see the domain note in props/c06.py);
+    bools with gaps, an all-missing column, NaN in pressure / loading (few cells, or — pressure — every cell: no pressure recorded at all);
     independent of the branch layout drawn before, so every layout meets every kind of gap.
     model: no fit error / no ranges handed over (the model then carries NaN for them), exact zeros (perfect fit, range starting at 0),
     a model of the desorption branch.
@@ -158,15 +158,16 @@ def punch_missing(rng, c, domain="json"):
                 numeric = name in ("enthalpy", "counter")
                 ex[name] = [(NAN if numeric else None) if i in hs else v for i, v in enumerate(ex[name])]
                 done.append(f"{name}:{d}")
-        if rng.random() < 0.25:
-            hs = holes("few") if n > 1 else []
-            # TODO(candidate defect, unchanged tree): a table whose pressures are ALL missing and whose points are all adsorption is exported
-            # without any branch key and `isotherm_from_json` then raises ValueError (idxmax of an all-NaN column in split_ads_data); kept out
-            # of the generator for every layout: at least one pressure stays
-            hs = hs[:max(0, n - 1)]
-            if hs:
-                c["pressure"] = [NAN if i in hs else v for i, v in enumerate(c["pressure"])]
-                done.append("pressure:few")
+        if rng.random() < 0.3:
+            # "all": NO pressure recorded at any point (S54-C06: with all points adsorption the document carries no branch key and the reader's
+            # branch guess had nothing to take the maximum of: pandas' ValueError out of `split_ads_data`; repaired in the repository).
+            # A one-point table with a gap in the pressure is the same thing.
+            d = "all" if (n == 1 or rng.random() < 0.35) else "few"
+            hs = holes(d)
+            if d == "few":
+                hs = hs[:n - 1]
+            c["pressure"] = [NAN if i in hs else v for i, v in enumerate(c["pressure"])]
+            done.append(f"pressure:{d}")
         if rng.random() < 0.25:
             d = rng.choice(["few", "tail"])
             hs = holes(d)
